@@ -2,7 +2,7 @@
    computation on every run.  If CONST_TOKENS, ALPHA_TOKENS or one of the three patterns is
    edited in tokens.py these lemmas are re-checked against the new values; a lemma that no
    longer holds breaks the build of Properties/C11.v and the harness's search decides. *)
-From Coq Require Import NArith List String.
+From Coq Require Import NArith List String Lia Bool.
 From Ka Require Import Gen.GenTokens Model.Lexer.
 Import ListNotations.
 
@@ -54,3 +54,80 @@ Proof. vm_compute. reflexivity. Qed.
 (* "±" of the byte-string table is the single code point 177 *)
 Lemma plusminus_decoded : In [177%N] gen_ctoks.
 Proof. vm_compute. tauto. Qed.
+
+(* ---- the two keywords: the scan answers "to" / "in" exactly when no alphabetic character
+   follows, and no other table entry matches a text that starts with them ---- *)
+Lemma scan_to : forall isalpha rest,
+  scan isalpha gen_atoks gen_ctoks (utf8_of_string "to" ++ rest)%list
+  = if next_not_alpha isalpha rest then Some (utf8_of_string "to") else None.
+Proof.
+  intros isalpha rest.
+  let t := eval vm_compute in gen_ctoks in change gen_ctoks with t.
+  let t := eval vm_compute in gen_atoks in change gen_atoks with t.
+  let t := eval vm_compute in (utf8_of_string "to") in change (utf8_of_string "to") with t.
+  unfold scan, entry_hit, mem; simpl. destruct (next_not_alpha isalpha rest); reflexivity.
+Qed.
+
+Lemma scan_in : forall isalpha rest,
+  scan isalpha gen_atoks gen_ctoks (utf8_of_string "in" ++ rest)%list
+  = if next_not_alpha isalpha rest then Some (utf8_of_string "in") else None.
+Proof.
+  intros isalpha rest.
+  let t := eval vm_compute in gen_ctoks in change gen_ctoks with t.
+  let t := eval vm_compute in gen_atoks in change gen_atoks with t.
+  let t := eval vm_compute in (utf8_of_string "in") in change (utf8_of_string "in") with t.
+  unfold scan, entry_hit, mem; simpl. destruct (next_not_alpha isalpha rest); reflexivity.
+Qed.
+
+Lemma keywords_are_letters :
+  forallb is_letter (utf8_of_string "to") = true /\ forallb is_letter (utf8_of_string "in") = true
+  /\ mem (utf8_of_string "to") gen_atoks = true /\ mem (utf8_of_string "in") gen_atoks = true.
+Proof. vm_compute. repeat split. Qed.
+
+Lemma keywords_nonempty : utf8_of_string "to" <> [] /\ utf8_of_string "in" <> [].
+Proof. split; vm_compute; discriminate. Qed.
+
+(* ---- the hypothesis [classes_ok] of the C11 theorems is satisfiable: a concrete triple of
+   character classes (ASCII/Latin-1 whitespace; letters, μ and é alphabetic; digits and ²
+   numeric) satisfies it at EVERY code point ---- *)
+
+Lemma existsb_eqb_bound : forall (l : list N) (c : N),
+  forallb (fun x => (x <? 9000)%N) l = true -> (9000 <= c)%N -> existsb (N.eqb c) l = false.
+Proof.
+  induction l as [|x l IH]; intros c H L; simpl in *; [reflexivity|].
+  apply andb_prop in H. destruct H as [Hx Hl]. apply N.ltb_lt in Hx.
+  rewrite (IH c Hl L). replace (c =? x)%N with false; [reflexivity|].
+  symmetry. apply N.eqb_neq. intro E. subst. apply N.lt_nge in Hx. contradiction.
+Qed.
+
+Lemma ctoks_chars_small : forallb (forallb (fun x => (x <? 9000)%N)) gen_ctoks = true.
+Proof. vm_compute. reflexivity. Qed.
+
+Lemma classes_small :
+  forallb (class_ok_b w_space w_alpha w_numeric gen_ctoks) (map N.of_nat (seq 0 (N.to_nat 9000))) = true.
+Proof. vm_compute. reflexivity. Qed.
+
+Lemma classes_ok_witness : classes_ok w_space w_alpha w_numeric.
+Proof.
+  intro c. destruct (N.ltb c 9000) eqn:L.
+  - apply N.ltb_lt in L. pose proof classes_small as H. rewrite forallb_forall in H. apply H.
+    apply in_map_iff. exists (N.to_nat c). split; [apply N2Nat.id|].
+    apply in_seq. lia.
+  - apply N.ltb_ge in L.
+    assert (Hs : w_space c = false) by (apply existsb_eqb_bound; [reflexivity|exact L]).
+    assert (Ht : existsb (existsb (N.eqb c)) gen_ctoks = false).
+    { pose proof ctoks_chars_small as H. induction gen_ctoks as [|t tl IH]; [reflexivity|].
+      simpl in *. apply andb_prop in H. destruct H as [H1 H2].
+      rewrite (existsb_eqb_bound t c H1 L). exact (IH H2). }
+    assert (F : forall k, (k < 9000)%N -> (c <=? k)%N = false /\ (c =? k)%N = false).
+    { intros k Hk. split; [apply N.leb_gt|apply N.eqb_neq; intro E; subst c; apply N.lt_nge in Hk; contradiction].
+      eapply N.lt_le_trans; [exact Hk|exact L]. }
+    unfold class_ok_b, sig_char. rewrite Hs, Ht.
+    unfold w_alpha, w_numeric, ident_char, ident_start, is_letter, is_lower, is_upper, is_digit, is_currency,
+           ch_quote, ch_hash, ch_dot, ch_plus, ch_minus.
+    repeat match goal with
+           | |- context [(c <=? ?k)%N] => rewrite (proj1 (F k eq_refl))
+           | |- context [(c =? ?k)%N] => rewrite (proj2 (F k eq_refl))
+           end.
+    rewrite ?andb_false_r. reflexivity.
+Qed.
